@@ -296,11 +296,13 @@ func (p *Process) getBackoff() time.Duration {
 }
 
 func (p *Process) getProcessEnvironment() []string {
-	env := []string{
-		"PC_PROC_NAME=" + p.procConf.Name,
-		EnvReplicaNum + "=" + strconv.Itoa(p.procConf.ReplicaNum),
-	}
-	env = append(env, os.Environ()...)
+	// later entries win: the injected variables must not be shadowed by the inherited environment
+	// (e.g. a process-compose started by a process of another process-compose)
+	env := append([]string{}, os.Environ()...)
+	env = append(env,
+		"PC_PROC_NAME="+p.procConf.Name,
+		EnvReplicaNum+"="+strconv.Itoa(p.procConf.ReplicaNum),
+	)
 	env = append(env, p.globalEnv...)
 	env = append(env, p.procConf.Environment...)
 	return env
